@@ -199,9 +199,30 @@ def run_primitive(spec):
     err, mm = check_tables(sc.cell, ps, pp, dense, sparse, 1e-5)
     if err:
         return Out(ok=False, msg="Primitive.get_smallest_vectors: " + err)
+    reordered = False
+    if len(prim) >= 2:
+        # the documented option that fixes the order of primitive atoms: the table columns must follow the atoms
+        from phonopy.structure.cells import Primitive
+
+        order = rng_from(spec["crystal"]["key"], 13).permutation(len(prim))
+        t2 = {}
+        try:
+            for dns in (True, False):
+                p2 = Primitive(sc, prim.primitive_matrix, store_dense_svecs=dns, positions_to_reorder=prim.scaled_positions[order])
+                t2[dns] = (p2.get_smallest_vectors(), p2)
+        except Exception as e:
+            return Out(ok=False, msg="Primitive(positions_to_reorder=<permutation %s of its own positions>) raised %r" % (order.tolist(), e))
+        p2 = t2[True][1]
+        if list(np.array(p2.p2s_map)) != list(np.array(prim.p2s_map)[order]):
+            return Out(ok=False, msg="positions_to_reorder: p2s_map %s is not the requested permutation %s of %s" % (list(p2.p2s_map), order.tolist(), list(prim.p2s_map)))
+        d2, s2 = t2[True][0], t2[False][0]
+        err, mm2 = check_tables(sc.cell, ps, ps[p2.p2s_map], (d2[0] @ to_s, d2[1]), (s2[0] @ to_s, s2[1]), 1e-5)
+        if err:
+            return Out(ok=False, msg="Primitive.get_smallest_vectors with positions_to_reorder=%s: %s" % (order.tolist(), err))
+        reordered = True
     S = np.array(spec["smat"])
     return Out(ok=True, nontrivial=mm >= 2 or bool(np.any(S - np.diag(np.diag(S)))),
-               classes=["mult:%d" % mm, spec["crystal"]["kind"], "noise" if spec["crystal"].get("noise") else "exact"],
+               classes=["mult:%d" % mm, spec["crystal"]["kind"], "noise" if spec["crystal"].get("noise") else "exact"] + (["reordered"] if reordered else []),
                info={"max_multiplicity": mm})
 
 
